@@ -5,6 +5,7 @@
 static MemDev cdev ;
 
 #define NFR 23
+#define NHEAD 10
 typedef struct { char id [72] ; unsigned len ; unsigned char *data ; } Ck ;
 
 #define NMAJ 8
@@ -57,7 +58,7 @@ static int fetch (SF_CHUNK_ITERATOR *it, unsigned *size, unsigned char **data, l
 
 /* script: nck chunks (set before audio unless late), optional metadata interleave; then verification */
 static void chunk_case (int mi, Ck *cks, int nck, int interleave, int late, int bufmode, const char *family)
-{	SF_INFO info ; SNDFILE *sf ; char rs [48] ; int rc, accepted [256], nacc = 0 ; static short got [NFR * 2] ;
+{	SF_INFO info ; SNDFILE *sf ; char rs [48] ; int rc, accepted [256], nacc = 0, head_ok = 1 ; static short got [NFR * 2] ;
 	snprintf (rs, sizeof (rs), "%s|%s", mnames [mi], family) ;
 	md_reset (&cdev) ; memset (&info, 0, sizeof (info)) ; info.format = majors [mi] | c13_sub ; info.channels = 2 ; info.samplerate = 44100 ;
 	if (c13_ref_key != (majors [mi] | c13_sub))
@@ -89,8 +90,9 @@ static void chunk_case (int mi, Ck *cks, int nck, int interleave, int late, int 
 	md_rewind (&cdev) ; memset (&info, 0, sizeof (info)) ;
 	sf = md_open (&cdev, SFM_READ, &info) ;
 	if (! sf) { vl_violation (rt_sig ("%s|reopen-failed", rs), "%s", sf_strerror (NULL)) ; return ; }
-	if (info.frames != NFR || vl_read (sf, T_SHORT, 1, got, NFR) != NFR || memcmp (got, c13_ref, sizeof (got)) != 0)
-		vl_violation (rt_sig ("%s|audio-damaged%s", rs, late ? "-late" : ""), "audio differs after re-open (frames %lld)", (long long) info.frames) ;
+	/* the first NHEAD frames now, the rest after all the chunk calls: fetching chunks must not move the audio read position */
+	if (info.frames != NFR || vl_read (sf, T_SHORT, 1, got, late ? NFR : NHEAD) != (late ? NFR : NHEAD) || memcmp (got, c13_ref, (late ? NFR : NHEAD) * 2 * sizeof (short)) != 0)
+	{	head_ok = 0 ; vl_violation (rt_sig ("%s|audio-damaged%s", rs, late ? "-late" : ""), "audio differs after re-open (frames %lld)", (long long) info.frames) ; }
 	if ((interleave & 1))
 	{	const char *t ; INLIB (t = sf_get_string (sf, SF_STR_TITLE)) ;
 		if (! t || strcmp (t, "before chunks")) vl_violation (rt_sig ("%s|other-metadata-damaged", rs), "title string lost or changed next to custom chunks") ;
@@ -145,6 +147,10 @@ static void chunk_case (int mi, Ck *cks, int nck, int interleave, int late, int 
 	{	SF_CHUNK_ITERATOR *a, *b ; INLIB (a = sf_get_chunk_iterator (sf, NULL)) ; INLIB (b = sf_get_chunk_iterator (sf, NULL)) ;
 		if (a && b) { int guard = 0 ; while (b && guard ++ < 2000) INLIB (b = sf_next_chunk_iterator (b)) ; }
 		check_invariants (sf, rs, "after iterating") ;
+		}
+	{	sf_count_t n = vl_read (sf, T_SHORT, 1, got + NHEAD * 2, NFR - NHEAD) ;
+		if (head_ok && (n != NFR - NHEAD || memcmp (got, c13_ref, sizeof (got)) != 0))
+			vl_violation (rt_sig ("%s|audio-after-chunk-calls", rs), "the audio read after the chunk calls (frames %d..%d, %lld delivered) differs from what was written", NHEAD, NFR - 1, (long long) n) ;
 		}
 	INLIB (sf_close (sf)) ;
 }
